@@ -376,12 +376,38 @@ func init() {
 			okSig := false
 			forEachInstr(g, func(in ssa.Instruction) {
 				if ci, ok := in.(ssa.CallInstruction); ok {
-					if sc := ci.Common().StaticCallee(); sc != nil && sc.Name() == "Signal" {
+					if sc := ci.Common().StaticCallee(); sc != nil && sc.Name() == "Broadcast" {
 						okSig = true
 					}
 				}
 			})
-			c.Check(okSig, "deadline-wakes-reader", c.P.Pos(g.Pos()), "signals the reader", "blocked reader is not woken at the deadline")
+			c.Check(okSig, "deadline-wakes-reader", c.P.Pos(g.Pos()), "wakes every blocked reader (Broadcast)", "the deadline does not wake every blocked reader (Signal wakes one; with several goroutines in Read the others stay blocked past the deadline)")
+			// the timer acts only while it still owns the deadline: under the lock, readTimeoutCancel is still its own channel
+			for _, a := range c.storesIn(g, re) {
+				owns := false
+				for _, ft := range DomFactsX(a.Instr.Block()) {
+					b, isB := ft.Cond.(*ssa.BinOp)
+					if !isB || (b.Op != token.EQL && b.Op != token.NEQ) {
+						continue
+					}
+					isOwn := func(v ssa.Value) bool {
+						switch unconv(v).(type) {
+						case *ssa.Parameter, *ssa.FreeVar:
+							return true
+						}
+						if u, isU := unconv(v).(*ssa.UnOp); isU {
+							_, fv := u.X.(*ssa.FreeVar)
+							return fv
+						}
+						return false
+					}
+					same := (IsLoadOf(rtc)(b.X) && isOwn(b.Y)) || (IsLoadOf(rtc)(b.Y) && isOwn(b.X))
+					if same && ((b.Op == token.EQL && ft.Taken) || (b.Op == token.NEQ && !ft.Taken)) {
+						owns = true
+					}
+				}
+				c.Check(owns, "deadline-timer-still-owns-deadline", c.Pos(a.Instr), "readErr is set only while readTimeoutCancel is still this timer's channel", "a timer that was superseded while it waited for the stream lock still installs the deadline error (and clears the new deadline's cancel channel)")
+			}
 		}})
 }
 
